@@ -7,6 +7,7 @@ from sa import callgraph
 from sa import cfg as cfgmod
 from sa import defuse
 from sa import index
+from sa import tables
 from sa.rules import common
 from sa.rules import shared
 from sa.rules import c01
@@ -19,7 +20,10 @@ EXPLANATION = (
     'per call; no container keyed by a subgraph-relative id accumulates over '
     'a loop over subgraphs; inside `for subgraph in ...subgraphs` loops every '
     'tensor/operator access is on the loop variable; only model-wide tables '
-    '(buffers, operator codes, tensor names) are shared.'
+    '(buffers, operator codes, tensor names) are shared. The graph-info '
+    'generator and the performer\'s id translation are decided as tables for '
+    'subgraph ids 0 and 3 / 1 (ids must come from, and maps be indexed by, the '
+    'subgraph at hand).'
 )
 LEVEL_TEXT = (
     'Decides index coherence for all models with any number of subgraphs: a '
@@ -39,6 +43,63 @@ PERF = 'transformation_performer:TransformationPerformer'
 TIG = 'transformation_instruction_generator:TransformationInstructionsGenerator'
 PER_SUBGRAPH = ('_original_op_id_map', '_added_op_id_map', 'subgraphs')
 LOCAL_ID_SOURCES = ('.outputs', '.inputs', '.tensors', '.operators')
+
+
+class _Ctor:
+  sa_hook = True
+
+  def __init__(self, cls, names):
+    self.cls, self.names = cls, names
+
+  def __call__(self, args, kwargs):
+    from sa.consteval import Obj  # pylint: disable=g-import-not-at-top
+    d = dict(zip(self.names, args))
+    d.update(kwargs)
+    return Obj(self.cls, d)
+
+
+def _graph_info_table(ctx, R, gi):
+  """Decision table of _tensor_info_generator on small subgraphs: every tensor
+  gets (own id, given subgraph id, producing op or -1, one consumer entry per
+  consuming op, -1 iff it is a subgraph output)."""
+  from sa.consteval import Obj  # pylint: disable=g-import-not-at-top
+  it = tables.interp(ctx)
+  ci = ctx.repo.cls(f'{TIG}.TensorGraphInfo')
+  names = [f.name for f in ci.fields]
+  if names != ['tensor_id', 'subgraph_id', 'producer', 'consumers']:
+    raise index.AnalysisError(f'{TIG}.TensorGraphInfo fields changed: {names}')
+  graphs = [
+      # (ops as (inputs, outputs), subgraph outputs, number of tensors)
+      ([([0, 1], [2]), ([2, 3], [4])], [4], 5),
+      ([([0, 1], [2]), ([2, 3], [4]), ([2], [5])], [2, 5], 6),          # intermediate that is also an output
+      ([([0, -1, 1], [2]), ([2, 2], [3])], [3, 0], 4),                    # absent operand, same tensor twice, input as output
+      ([], [0], 1),
+  ]
+  for sgid in (0, 3):
+    for ops, outs, nt in graphs:
+      sg = Obj('x:SubGraphT', {'tensors': [Obj('x:TensorT', {'name': f't{k}'.encode(), 'buffer': 0}) for k in range(nt)],
+                               'operators': [Obj('x:OperatorT', {'inputs': list(i), 'outputs': list(o)}) for i, o in ops],
+                               'outputs': list(outs), 'inputs': [0]})
+      selfo = Obj(TIG, {'TensorGraphInfo': _Ctor(ci.fq, names)})
+      res = it.outcomes(gi, [selfo, sgid, sg], copy_args=False)
+      label = f'subgraph {sgid}: ops={ops} outputs={outs}'
+      if len(res) != 1 or res[0].kind != 'return' or not isinstance(res[0].value, list) or len(res[0].value) != nt:
+        ctx.check(R, False, gi.node, gi, label, f'not decided / wrong number of tensors: {[o.short() for o in res]}')
+        continue
+      for k, item in enumerate(res[0].value):
+        name, info = item if isinstance(item, (tuple, list)) and len(item) == 2 else (None, None)
+        if not isinstance(info, Obj):
+          ctx.check(R, False, gi.node, gi, label, f'tensor {k}: no graph info yielded')
+          continue
+        prod = next((oi for oi, (i, o) in enumerate(ops) if k in o), -1)
+        cons = sorted([oi for oi, (i, o) in enumerate(ops) if k in i] + ([-1] if k in outs else []))
+        g = info.fields
+        ctx.check(R, name == f't{k}' and g['tensor_id'] == k and g['subgraph_id'] == sgid, gi.node, gi, f'{label}: tensor {k} -> ({name}, id {g["tensor_id"]}, subgraph {g["subgraph_id"]})',
+                  'graph info must record the tensor\'s own name, id and the id of the subgraph it was read from')
+        ctx.check(R, g['producer'] == prod, gi.node, gi, f'{label}: tensor {k} producer {g["producer"]}', f'the producer of tensor {k} is operator {prod}')
+        gc = g['consumers']
+        ctx.check(R, isinstance(gc, list) and sorted(gc) == cons, gi.node, gi, f'{label}: tensor {k} consumers {gc}',
+                  f'the consumers of tensor {k} are {cons} (-1 = the graph output)')
 
 
 def r1_performer_indices(ctx):
@@ -81,9 +142,7 @@ def r1_performer_indices(ctx):
                 'tensor id and producer of an instruction must come from the graph info of the same tensor')
   gi = ctx.repo.func(f'{TIG}._tensor_info_generator')
   ctx.instance(R)
-  ctor = [c for c in common.calls_in(gi.node) if common.call_name(c).endswith('TensorGraphInfo')]
-  ok = len(ctor) == 1 and [ast.unparse(a) for a in ctor[0].args][:2] == ['tensor_id', 'subgraph_id']
-  ctx.check(R, ok, gi.node, gi, ctor[0] if ctor else 'TensorGraphInfo(...)', 'graph info must record the tensor\'s own id and the id of the subgraph it was read from')
+  _graph_info_table(ctx, R, gi)
   mp = ctx.repo.func(f'{TIG}._create_tensor_name_to_graph_info_map')
   loops = [n for n in common.walk_no_nested(mp.node) if isinstance(n, ast.For)]
   ok = bool(loops) and isinstance(loops[0].iter, ast.Call) and common.call_name(loops[0].iter) == 'enumerate' and ast.unparse(loops[0].iter.args[0]).endswith('.subgraphs')
@@ -92,12 +151,6 @@ def r1_performer_indices(ctx):
     calls = [c for c in common.calls_in(mp.node) if common.call_name(c).endswith('_tensor_info_generator')]
     ok = len(calls) == 1 and [ast.unparse(a) for a in calls[0].args] == [idx, sg]
   ctx.check(R, ok, mp.node, mp, 'enumerate(subgraphs) -> _tensor_info_generator(index, subgraph)', 'the subgraph index passed on must be the enumerating index of that subgraph')
-  # consumers / producer of a tensor are computed from its own subgraph's operators
-  src = defuse.norm(gi.node)
-  ctx.check(R, src.count('enumerate(subgraph.operators)') >= 2 and 'subgraph.tensors' in src and 'subgraph.outputs' in src, gi.node, gi, 'graph info from the subgraph argument',
-            'producer/consumers/graph-output membership must be read from the subgraph passed in')
-  first = 'consumers.insert(0, -1)' in src
-  ctx.check(R, first, gi.node, gi, 'consumers.insert(0, -1)', 'the graph-output pseudo consumer must be recorded (first in the list)')
 
 
 def r5_loop_variable_coherence(ctx):
